@@ -245,6 +245,25 @@ func init() {
 					return
 				}
 			}
+			// file sizes on block, buffer and streaming-threshold boundaries, under every setting (compressors included)
+			for _, s := range sets {
+				var l []model.Entry
+				for _, n := range fixture.BoundarySizes {
+					e := model.Entry{Src: fmt.Sprintf("sizes/s%d.bin", n), Dst: fmt.Sprintf("/opt/sizes/s%d.bin", n)}
+					l = append(l, e)
+					if s.Only == "" || n >= 65535 {
+						if !yield(C01Case{Setting: s, List: []model.Entry{e}}) {
+							return
+						}
+					}
+				}
+				if !yield(C01Case{Setting: s, List: l}) {
+					return
+				}
+				if !yield(C01Case{Setting: s, List: []model.Entry{{Src: "sizes", Dst: "/opt/sizetree", Type: "tree"}}}) {
+					return
+				}
+			}
 			// pairs under every setting (compression settings: pairs of untagged templates only)
 			for _, s := range sets {
 				for i, a := range all {
